@@ -23,7 +23,7 @@ def check(tier, replay=None):
         f = os.path.join(wd, "replay.ndjson")
         # regenerate the file the cell came from and re-check it
         jobs_spec = [(rp["mode"], rp["file"])]
-    for cmd in (["tables", "sliders", sl], ["tables", "leapers", os.path.join(wd, "leapers.ndjson")],
+    for cmd in (["tables", "sliders", sl], ["tables", "leapers", os.path.join(wd, "leapers.ndjson")], ["tables", "geom", os.path.join(wd, "geom.ndjson")],
                 ["tables", "random", os.path.join(wd, "random.ndjson"), str(50000 if T else 4000), str(seed())]):
         r = subprocess.run([IKV] + cmd, stdout=subprocess.PIPE, stderr=subprocess.PIPE, text=True)
         if r.returncode != 0:
@@ -36,6 +36,7 @@ def check(tier, replay=None):
     for f in sorted(glob.glob(os.path.join(sl, "*.ndjson"))):
         jobs.append(("slider", f))
     jobs.append(("leaper", os.path.join(wd, "leapers.ndjson")))
+    jobs.append(("geom", os.path.join(wd, "geom.ndjson")))
     # split the random file so that the JVMs share it
     rows = open(os.path.join(wd, "random.ndjson")).read().splitlines()
     n = NCPU if T else 4
@@ -50,7 +51,8 @@ def check(tier, replay=None):
         mode, f = job
         swd = os.path.join(wd, "tlc_" + os.path.basename(f))
         os.makedirs(swd, exist_ok=True)
-        info = run_tlc(os.path.join(SPEC, "TablesCheck.tla"), os.path.join(SPEC, "TablesCheck.cfg"), swd,
+        module = "GeomCheck" if mode == "geom" else "TablesCheck"
+        info = run_tlc(os.path.join(SPEC, module + ".tla"), os.path.join(SPEC, module + ".cfg"), swd,
                        env={"MODE": mode, "FILE": f}, timeout=1800)
         cells = sum(1 for _ in open(f))
         badcells = [l for l in info["out"].splitlines() if l.startswith('<<"BADCELL"')]
@@ -77,7 +79,7 @@ def check(tier, replay=None):
         by_mode[mode] = by_mode.get(mode, 0) + cells
         for b in badcells[:3]:
             outcome.add({"family": "tables", "mode": mode, "file": os.path.basename(f)}, {"p": "C04", "w": b[:500], "ev": mode, "c": 0}, None)
-    for mode in ("slider", "leaper", "random"):
+    for mode in ("slider", "leaper", "random", "geom"):
         f = [j[1] for j in jobs if j[0] == mode]
         if f:
             rows = read_ndjson(f[0])
